@@ -70,6 +70,19 @@ def opt(n):
     return "None" if n < 0 else "(Some %d)" % n
 
 
+EXTFIX = {"value": "false"}
+
+
+def flow_variant(ctx):
+    """does ESolver::ChargeOnConductor apply the exterior-region scaling of the permittivity?  (read from the source)"""
+    src = open(os.path.join(ctx.snap.src, "esolver", "esolver.cpp"), errors="replace").read()
+    i = src.find("double ESolver::ChargeOnConductor")
+    if i < 0:
+        raise vlib.TranslateError("ESolver::ChargeOnConductor not found in esolver.cpp")
+    j = src.find("\n}", i)
+    return "true" if "IsExternal" in src[i:j if j > 0 else len(src)] else "false"
+
+
 def to_coq(d):
     f = vlib.fhexs
     nodes = "; ".join("mkENode %s %s %s %s" % (f(x), f(y), opt(bm), opt(c)) for (x, y, bm, c) in d["nodes"])
@@ -86,7 +99,7 @@ def to_coq(d):
             nodes, elems, blocks, lines, points, circs, labels, pbcs))
     V = "[%s]" % "; ".join(f(v) for v in d["V"])
     nc = d["nc"]
-    charges = "; ".join("charge_on_conductor FA P %s V %d" % (f(d["depth_after"]), i) for i in range(nc))
+    charges = "; ".join("charge_on_conductor FA P %s %s V %d" % (EXTFIX["value"], f(d["depth_after"]), i) for i in range(nc))
     return ("let P := %s in let V := %s in let r := asmE FA P %d %s in "
             "(dump_rows FA (lM (fst (fst r))) ++ lb (fst (fst r)), snd r, [%s])" % (P, V, d["bw"], f(d["prec"]), charges))
 
@@ -241,11 +254,21 @@ def gen_problem(rng, quick, k=None):
     box = None if k is None else [None, "cfloat", "cfix", "twofloat", "material", "cfloat", "hole-fix", "twofloat"][k % 8]
     p = femgen.gen_scalar_problem(rng, "fee", size_nodes=rng.choice([25, 40, 60]) if quick else rng.choice([40, 100, 250]), box=box)
     p["dosmartmesh"] = 0 if rng.random() < 0.8 else 1
+    if p.get("problemtype") == "axisymmetric" and rng.random() < 0.6:
+        # one region is declared part of the conformally mapped exterior region (Kelvin transformation): its
+        # permittivity is divided by (r^2+z^2)/(extRi*extRo) in the assembly
+        ys = [q["y"] for q in p["points"]]
+        p.update(extRo=rng.choice([3.0, 5.0]), extRi=rng.choice([2.0, 2.5]), extZo=min(ys) - rng.choice([0.5, 1.0]))
+        p["labels"][rng.randrange(len(p["labels"]))]["external"] = 1
+        p["features"].append("external")
     return p
 
 
 def correspond(ctx):
     rng = ctx.rng
+    EXTFIX["value"] = flow_variant(ctx)
+    ctx.res.cov["conductor_charge_variant"] = ("ChargeOnConductor applies the exterior-region scaling" if EXTFIX["value"] == "true"
+                                               else "ChargeOnConductor ignores the exterior-region scaling")
     count = 16 if ctx.quick() else 96
     dis = []
     exprs, cases = [], []
